@@ -135,11 +135,21 @@ def c10_field_14_dropped(case, out):
     return False
 
 
+def _kv_sized(case):
+    """FileMetaData whose size comes from key_value_metadata alone: to_bytes sizes its buffer from that field, so the
+    pinned tree serialises these correctly and they are NOT part of the to_bytes overflow finding."""
+    import json
+    if case.get("struct") != "FileMetaData" or not isinstance(case.get("value"), dict):
+        return False
+    rest = {k: v for k, v in case["value"].items() if k != "key_value_metadata"}
+    return len(json.dumps(rest)) < 100000
+
+
 @predicate
 def c10_to_bytes_overflow(case, out):
     """ThriftObject.to_bytes serialises into a 500000-byte buffer (larger only for RowGroup/FileMetaData by a
     heuristic); a longer structure is memcpy'd past its end."""
-    return bool(case.get("allow_big")) and (out["sig"].startswith("crash") or out["sig"].startswith(("not_thrift", "reparse_raised", "roundtrip", "trailing", "value_changed", "lost_field", "conformance")))
+    return bool(case.get("allow_big")) and not _kv_sized(case) and (out["sig"].startswith("crash") or out["sig"].startswith(("not_thrift", "reparse_raised", "roundtrip", "trailing", "value_changed", "lost_field", "conformance")))
 
 
 def _c03_features(case):
@@ -272,7 +282,7 @@ def _c12_delta_pages(inner):
 def c12_to_bytes_overflow(case, out):
     src, inner = _c12_inner(case)
     sig = out["sig"]
-    return src == "C10" and bool(inner.get("allow_big")) and any(f in sig for f in ("write_thrift", "write_list", "to_bytes", "crash"))
+    return src == "C10" and bool(inner.get("allow_big")) and not _kv_sized(inner) and any(f in sig for f in ("write_thrift", "write_list", "to_bytes", "crash"))
 
 
 @predicate
